@@ -120,8 +120,10 @@ def render_q(rng, q, fancy=True):
     for f, v in q.exprs:
         if not first:
             parts.append(g(True))
-            parts.append(sp('and'))
-            parts.append(g(False) if fancy and rng.random() < 0.3 else (g(True) or ' '))
+            a = sp('and')
+            parts.append(a)
+            # `and(` is an IDENT followed by `(` only for the literal spelling (tokenize2.py:196-203)
+            parts.append(g(False) if fancy and '\\' not in a and rng.random() < 0.3 else (g(True) or ' '))
         first = False
         parts.append('(')
         parts.append(g(False))
@@ -167,7 +169,7 @@ def gen_list(rng, values=None):
 
 # -- malformed stream --------------------------------------------------------------------------------
 JUNK = [';', '{', '}', ')', '(', ',', ':', 'and', 'not', 'only', 'foo', '@x', '!', '1', '"', "'x", '[', ']', '/', '16/9',
-        'url(x)', '#ffff', 'tv', 'all', '/*', '*/', 'f(', '\\', '<!--', '~=', 'U+1', '%']
+        'url(x)', '#ffff', 'tv', 'all', '/*', '*/', 'f(', '<!--', '~=', 'U+1', '%']
 
 
 def mutate(rng, text):
